@@ -239,7 +239,7 @@ Inductive ekind :=
   | EMissingMatch | ENoCategoryOrTags | EInvalidLet | EInvalidField | EInvalidMatch
   | EOutside | EInvalidTop      (* before the first header: not an assignment / invalid right-hand side *)
   (* views *)
-  | VFilterOutside | VDescOutside | VInvalidFilter | VInvalidVar | VUnexpected | VMissingFilter.
+  | VFilterOutside | VDescOutside | VInvalidFilter | VInvalidVar | VUnexpected | VMissingFilter | VDuplicateName.
 
 Inductive res (A : Type) := Ok (a : A) | Err (line : nat) (k : ekind).
 Arguments Ok {A} a.
@@ -399,7 +399,7 @@ Section WithParser.
   Definition var_decl (s : string) : option (string * string) :=
     let (id, rest) := span is_word s in
     if is_empty id then None
-    else match after_eq rest with Some rhs => Some (id, strip rhs) | None => None end.
+    else match after_eq rest with Some rhs => Some (lower id, strip rhs) | None => None end.   (* names are stored lower-cased *)
 
   Definition vitem_of (s : string) : vitem :=
     match after_prefix "filter:" s with
@@ -444,10 +444,22 @@ Section WithParser.
     | IOther => Err n VUnexpected
     end.
 
+  (* every section together with the names of the sections before it *)
+  Fixpoint with_seen (seen : list string) (secs : list section) : list (list string * section) :=
+    match secs with
+    | [] => []
+    | sec :: r => (seen, sec) :: with_seen (seen ++ [snd (fst sec)]) r
+    end.
+
+  (* a header whose (stripped) name exactly equals that of an earlier section is rejected at its own line;
+     the check comes after the completeness check of the previous section and before the section's lines *)
+  Definition build_view_d (p : list string * section) : res view :=
+    if mem (snd (fst (snd p))) (fst p) then Err (fst (fst (snd p))) VDuplicateName else build_view (snd p).
+
   Definition parse_v_numbered (nl : list (nat * string)) : res vfile :=
     let (pre, secs) := group (map (fun p => (fst p, classify_v (snd p))) nl) in
     bind (foldM vpre_step pre []) (fun g =>
-      bind (mapM build_view secs) (fun vs => Ok {| f_globals := g; f_views := vs |})).
+      bind (mapM build_view_d (with_seen [] secs)) (fun vs => Ok {| f_globals := g; f_views := vs |})).
 
   Definition parse_views (lines : list string) : res vfile := parse_v_numbered (number 1 lines).
 
